@@ -101,6 +101,10 @@ struct Session {
     std::map<long, std::string> idOf;
     std::map<long, long> createdAt;
     std::map<long, long> updatedAt;          // last seen updated_at per entity: never goes back, never precedes created_at
+    // dimension descriptor handles as the append calls returned them (per array eid, in append order), kept on the heap and
+    // never copied; read after every call; must show what a fresh look-up of the same descriptor shows
+    struct KDim { std::string k; std::shared_ptr<nix::SetDimension> se; std::shared_ptr<nix::SampledDimension> sa; std::shared_ptr<nix::RangeDimension> ra; std::shared_ptr<nix::DataFrameDimension> fr; };
+    std::map<long, std::vector<KDim>> keptDims;
     json carried = json::array();            // issues observed immediately before a close (what was observable before closing)
     Dict dict;
     std::string path;
@@ -537,6 +541,7 @@ json viewOf(const Ent &e) {
     return v;
 }
 
+json keptDimView(const Session::KDim &q);
 json observe(Session &s) {
     json o = {{"open", s.open}, {"mode", s.open ? s.mode : ""}, {"ents", json::array()}, {"handles", json::array()}, {"issues", json::array()}};
     // C11: after close() the file is released: no descriptor of this process refers to it any more
@@ -557,6 +562,28 @@ json observe(Session &s) {
         o["ents"] = v;
         for (auto &x : w.issues) o["issues"].push_back(x);
         s.fresh = w.fresh;
+        // descriptor handles kept from the append calls against fresh look-ups of the same descriptors
+        for (auto &kd : s.keptDims) {
+            auto fr = s.fresh.find(kd.first);
+            if (fr == s.fresh.end() || fr->second.kind != "array" || kd.second.empty()) continue;     // the array is gone: nothing to compare with
+            try {
+                std::vector<nix::Dimension> ds = fr->second.array.dimensions();
+                if (ds.size() < kd.second.size()) { o["issues"].push_back("array eid " + std::to_string(kd.first) + " has fewer descriptors than were appended in this session"); continue; }
+                size_t off = ds.size() - kd.second.size();
+                for (size_t i = 0; i < kd.second.size(); i++) {
+                    nix::Dimension d = ds[off + i];
+                    Session::KDim q; nix::DimensionType dt = d.dimensionType();
+                    q.k = dt == nix::DimensionType::Set ? "set" : dt == nix::DimensionType::Sample ? "sampled" : dt == nix::DimensionType::Range ? "range" : "frame";
+                    if (q.k == "set") q.se = std::make_shared<nix::SetDimension>(d.asSetDimension());
+                    else if (q.k == "sampled") q.sa = std::make_shared<nix::SampledDimension>(d.asSampledDimension());
+                    else if (q.k == "range") q.ra = std::make_shared<nix::RangeDimension>(d.asRangeDimension());
+                    else q.fr = std::make_shared<nix::DataFrameDimension>(d.asDataFrameDimension());
+                    json a = keptDimView(kd.second[i]), b = keptDimView(q);
+                    if (a != b) o["issues"].push_back("the handle kept from appending descriptor " + std::to_string(off + i + 1) + " of array eid " + std::to_string(kd.first) +
+                                                      " shows another state than a fresh look-up: " + firstDiff(b, a));
+                }
+            } catch (const std::exception &ex) { o["issues"].push_back(std::string("comparing kept descriptor handles threw: ") + ex.what()); }
+        }
     }
     for (auto &x : s.carried) o["issues"].push_back(x);
     for (long eid : s.retainedOrder) {
@@ -728,11 +755,30 @@ void doSetDef(Session &s, const json &g) {
 }
 
 void doAppendDim(Session &s, const json &g) {
-    nix::DataArray &a = handleOf(s, g["p"]).array; std::string k = g["slot"]; long f = g["t"];
-    if (k == "set") a.appendSetDimension({"a", "b"});
-    else if (k == "sampled") a.appendSampledDimension(0.5, "time", "ms", 1.0);
-    else if (k == "range") a.appendRangeDimension({1.0, 2.0, 3.5}, "dist", "m");
-    else a.appendDataFrameDimension(handleOf(s, f).frame, 0u);
+    long p = g["p"];
+    nix::DataArray &a = handleOf(s, p).array; std::string k = g["slot"]; long f = g["t"];
+    Session::KDim q; q.k = k;
+    if (k == "set") q.se = std::make_shared<nix::SetDimension>(a.appendSetDimension({"a", "b"}));
+    else if (k == "sampled") q.sa = std::make_shared<nix::SampledDimension>(a.appendSampledDimension(0.5, "time", "ms", 1.0));
+    else if (k == "range") q.ra = std::make_shared<nix::RangeDimension>(a.appendRangeDimension({1.0, 2.0, 3.5}, "dist", "m"));
+    else q.fr = std::make_shared<nix::DataFrameDimension>(a.appendDataFrameDimension(handleOf(s, f).frame, 0u));
+    s.keptDims[p].push_back(q);
+}
+// what a kept descriptor handle shows (frame dimensions: the frame it resolves to, by id; "none" when it has none / throws)
+json keptDimView(const Session::KDim &q) {
+    json v = {{"k", q.k}};
+    try {
+        if (q.se) { v["labels"] = q.se->labels(); }
+        else if (q.sa) { v["interval"] = q.sa->samplingInterval(); v["unit"] = q.sa->unit() ? *q.sa->unit() : ""; v["label"] = q.sa->label() ? *q.sa->label() : ""; }
+        else if (q.ra) { v["ticks"] = q.ra->ticks(); v["unit"] = q.ra->unit() ? *q.ra->unit() : ""; }
+        else if (q.fr) {
+            std::string fid = "none";
+            try { nix::DataFrame df = q.fr->data(); if (df) fid = df.id(); } catch (const std::exception &) {}
+            v["frame"] = fid;
+            if (fid != "none") { try { v["label0"] = q.fr->label(0u); v["size"] = (long) q.fr->size(); } catch (const std::exception &ex) { v["threw"] = ex.what(); } }
+        }
+    } catch (const std::exception &ex) { v["threw"] = ex.what(); }
+    return v;
 }
 
 nix::FileMode modeOf(const std::string &m) { return m == "ro" ? nix::FileMode::ReadOnly : m == "rw" ? nix::FileMode::ReadWrite : nix::FileMode::Overwrite; }
@@ -846,7 +892,7 @@ void openSession(Session &s, const std::string &m) {
     s.roHash = (m == "ro") ? fileHash(s.path) : "";
     s.f = nix::File::open(s.path, modeOf(m));
     s.open = true; s.mode = (m == "ro") ? "ro" : "rw";
-    s.retained.clear(); s.retainedOrder.clear(); s.fresh.clear();
+    s.retained.clear(); s.retainedOrder.clear(); s.fresh.clear(); s.keptDims.clear();
 }
 
 // executes one step; returns the outcome class
@@ -871,7 +917,7 @@ std::string doStep(Ctx &c, Session &s, const json &st, long variant) {
     else if (a == "SetType") r = outcome([&] { doSetType(s, g); }, &what);
     else if (a == "SetDef") r = outcome([&] { doSetDef(s, g); }, &what);
     else if (a == "AppendDim") r = outcome([&] { doAppendDim(s, g); }, &what);
-    else if (a == "DeleteDims") r = outcome([&] { handleOf(s, g["p"]).array.deleteDimensions(); }, &what);
+    else if (a == "DeleteDims") r = outcome([&] { handleOf(s, g["p"]).array.deleteDimensions(); s.keptDims.erase(g["p"].get<long>()); }, &what);
     else if (a == "Flush") r = outcome([&] { if (!s.f.flush()) throw std::runtime_error("flush returned false"); }, &what);
     else if (a == "Close") r = outcome([&] { closeSession(s); }, &what);
     else if (a == "Open") r = outcome([&] { openSession(s, g["n"]); }, &what);
@@ -1036,6 +1082,7 @@ json handleInner(Ctx &c, const json &rec) {
             // the client reads through the handles it kept, after every call (whatever a handle remembers must stay right)
             if (c.opts.value("touch_retained", false) && s.open)
                 for (long eid : s.retainedOrder) { try { if (s.retained[eid].valid()) (void) viewOf(s.retained[eid]); } catch (...) {} }
+            if (s.open) for (auto &kd : s.keptDims) for (auto &q : kd.second) (void) keptDimView(q);
         }
         const json &st = all[i];
         std::string what;
